@@ -8,7 +8,7 @@ Local Open Scope nat_scope.
 
 Definition nt (s : st) : nat := length (tasks s).
 Definition ll (s : st) : nat := length (lq s).
-Definition lc (s : st) : nat := length (cq s).
+Definition lc (s : st) : nat := length (cq s) + length (inj s).
 
 (* a poll never removes a task from the table or an entry from a queue *)
 Definition ext (s s' : st) : Prop := nt s' = nt s /\ ll s <= ll s' /\ lc s <= lc s'.
@@ -19,11 +19,11 @@ Lemma ext_trans s1 s2 s3 : ext s1 s2 -> ext s2 s3 -> ext s1 s3.
 Proof. unfold ext; lia. Qed.
 
 Lemma ext_upd_task i f s : ext s (upd_task i f s).
-Proof. unfold ext, nt, ll, lc, upd_task; cbn [tasks lq cq]. rewrite upd_length. lia. Qed.
+Proof. unfold ext, nt, ll, lc, upd_task; cbn [tasks lq cq inj]. rewrite upd_length. lia. Qed.
 Lemma ext_add_trace r s : ext s (add_trace r s).
 Proof. unfold ext, nt, ll, lc; cbn. lia. Qed.
 Lemma ext_push l i s : ext s (push l i s).
-Proof. unfold ext, nt, ll, lc, push; destruct l; cbn [tasks lq cq]; rewrite ?app_length; cbn [length]; lia. Qed.
+Proof. unfold ext, nt, ll, lc, push; destruct l; cbn [tasks lq cq inj set_lq set_cq]; rewrite ?app_length; cbn [length]; lia. Qed.
 
 Lemma get_lt i s : get i s <> None <-> i < nt s.
 Proof. unfold get, nt. apply nth_error_Some. Qed.
@@ -39,7 +39,7 @@ Lemma enqueue_grows ins now t s : t < nt s ->
   ll s + lc s < ll (fst (enqueue ins now t s)) + lc (fst (enqueue ins now t s)).
 Proof.
   intros H. apply get_lt in H. unfold enqueue. destruct (get t s) as [tk|]; [|contradiction]. cbn [fst].
-  unfold ll, lc, push; destruct (local tk); cbn [lq cq upd_task]; rewrite app_length; cbn [length]; lia.
+  unfold ll, lc, push; destruct (local tk); cbn [lq cq inj set_lq set_cq upd_task]; rewrite app_length; cbn [length]; lia.
 Qed.
 
 Lemma ext_wake ins now t s : ext s (fst (wake ins now t s)).
@@ -124,7 +124,7 @@ Proof.
   pose proof (ext_poll_task m loc now i s1) as [Hn _].
   destruct (poll_task m loc now i s1) as [s2 p]; cbn [fst] in Hn.
   specialize (IH s2). destruct (drain m loc n now s2) as [[s3 ps] dl]. unfold dr_st in *; cbn [fst] in *.
-  apply pop_some in Ep. destruct Ep as [_ [_ [Ht _]]]. unfold nt in *. rewrite IH, Hn, Ht. reflexivity.
+  apply pop_some in Ep. destruct Ep as [_ [_ [_ [_ [_ [Ht _]]]]]]. unfold nt in *. rewrite IH, Hn, Ht. reflexivity.
 Qed.
 
 Lemma drain_rt_ll m now : forall n s, ll s <= ll (dr_st (drain m false n now s)).
@@ -134,7 +134,7 @@ Proof.
   pose proof (ext_poll_task m false now i s1) as [_ [Hl _]].
   destruct (poll_task m false now i s1) as [s2 p]; cbn [fst] in Hl.
   specialize (IH s2). destruct (drain m false n now s2) as [[s3 ps] dl]. unfold dr_st in *; cbn [fst] in *.
-  apply pop_some in Ep. cbn [qof negb] in Ep. destruct Ep as [_ [Ho _]]. unfold ll in *. rewrite <- Ho. lia.
+  apply pop_some in Ep. destruct Ep as [_ [_ [_ [_ [Ho _]]]]]. unfold ll in *. rewrite <- (Ho eq_refl). lia.
 Qed.
 
 (* ---- a deferred task exists ---- *)
@@ -152,7 +152,7 @@ Proof.
   pose proof (ext_poll_task m loc now i s1) as [Hn _].
   destruct (poll_task m loc now i s1) as [s2 p]; cbn [fst snd] in *.
   specialize (IH s2). destruct (drain m loc n now s2) as [[s3 ps] dl]. unfold dr_dl in *; cbn [snd] in *.
-  apply pop_some in Ep. destruct Ep as [_ [_ [Ht _]]].
+  apply pop_some in Ep. destruct Ep as [_ [_ [_ [_ [_ [Ht _]]]]]].
   assert (E : nt s2 = nt s) by (unfold nt in *; rewrite Hn, Ht; reflexivity). rewrite E in IH.
   destruct (p_dfr p); [|exact IH]. apply Forall_app; split; [exact IH|].
   constructor; [|constructor]. unfold nt in *. rewrite <- Ht. apply Hd. reflexivity.
@@ -224,13 +224,13 @@ Qed.
 
 Lemma drain_over c loc now : forall n b s,
   coverb c b (dr_ps (drain None loc n now s)) = false ->
-  qof loc (dr_st (drain (Some c) loc b now s)) <> [] \/ dr_dl (drain (Some c) loc b now s) <> [].
+  0 < qlen loc (dr_st (drain (Some c) loc b now s)) \/ dr_dl (drain (Some c) loc b now s) <> [].
 Proof.
   induction n as [|n IH]; intros b s Hc; cbn [drain] in Hc.
   - unfold dr_ps, coverb in Hc; cbn in Hc. discriminate.
   - destruct (pop loc s) as [[i s1]|] eqn:Ep; [|unfold dr_ps, coverb in Hc; cbn in Hc; discriminate].
     destruct b as [|b]; cbn [drain].
-    + left. unfold dr_st; cbn [fst]. intros H. apply pop_none in H. rewrite H in Ep. discriminate.
+    + left. unfold dr_st; cbn [fst]. destruct (qlen loc s) eqn:H; [|lia]. apply pop_none in H. rewrite H in Ep. discriminate.
     + rewrite Ep. pose proof (poll_over c loc now i s1) as Hp. pose proof (poll_task_mode c loc now i s1) as Hm.
       destruct (poll_task None loc now i s1) as [s2 p] eqn:E2. cbn [snd] in Hp, Hm.
       specialize (IH b s2).
@@ -254,7 +254,7 @@ Qed.
 Lemma enqueue_out_grows now t s : snd (enqueue false now t s) = true -> ll s < ll (fst (enqueue false now t s)).
 Proof.
   unfold enqueue. destruct (get t s) as [tk|]; cbn [fst snd]; [|discriminate].
-  rewrite andb_true_r. intros ->. unfold ll, push; cbn [lq upd_task]. rewrite app_length; cbn [length]. lia.
+  rewrite andb_true_r. intros ->. unfold ll, push; cbn [lq set_lq upd_task]. rewrite app_length; cbn [length]. lia.
 Qed.
 
 Lemma wake_out_grows now t s : snd (wake false now t s) = true -> ll s < ll (fst (wake false now t s)).
@@ -338,7 +338,8 @@ Qed.
 Lemma queue_after_pos x :
   0 < ll (fst (fst (exec_bounded x))) + lc (fst (fst (exec_bounded x))) -> queue_after x <> [].
 Proof.
-  unfold queue_after, ll, lc. intros H E. apply app_eq_nil in E. destruct E as [E1 E2]. rewrite E1, E2 in H. cbn in H. lia.
+  unfold queue_after, queues, ll, lc. intros H E. apply app_eq_nil in E. destruct E as [E1 E2].
+  apply app_eq_nil in E2. destruct E2 as [E2 E3]. rewrite E1, E2, E3 in H. cbn in H. lia.
 Qed.
 
 Lemma forallb_false_exists {A} (f : A -> bool) l : forallb f l = false -> Exists (fun x => f x = false) l.
@@ -359,14 +360,14 @@ Proof.
   destruct (coverb c bl (dr_ps d1)) eqn:C2.
   - (* the LocalSet tick fits: it is the ideal one *)
     apply coverb_spec in C2. destruct C2 as [L2 O2].
-    assert (Q1 : qof true (dr_st d1) = []) by (apply drain_sufficient; lia).
+    assert (Q1 : qlen true (dr_st d1) = 0) by (apply drain_sufficient; lia).
     assert (E1 : drain (Some c) true bl now s0 = d1) by (apply drain_mode; assumption).
     assert (D1 : dr_dl d1 = []) by apply drain_ideal_no_defer.
     rewrite E1. destruct d1 as [[s1 p2] dl2] eqn:Ed1. unfold dr_st, dr_ps, dr_dl in *; cbn [fst snd] in *. subst dl2.
     destruct (coverb c br (dr_ps d2)) eqn:C3.
     + (* the scheduler turn fits as well: a LocalSet task was woken during it *)
       apply coverb_spec in C3. destruct C3 as [L3 O3].
-      assert (Q2 : qof false (dr_st d2) = []) by (apply drain_sufficient; lia).
+      assert (Q2 : qlen false (dr_st d2) = 0) by (apply drain_sufficient; lia).
       assert (E2 : drain (Some c) false br now s1 = d2) by (apply drain_mode; assumption).
       assert (D2 : dr_dl d2 = []) by apply drain_ideal_no_defer.
       rewrite E2.
@@ -385,21 +386,21 @@ Proof.
       pose proof (drain_over c false now (measure s1) br s1 C3) as Hp.
       pose proof (drain_dl_exist (Some c) false now br s1) as Hex.
       pose proof (drain_ext_nt (Some c) false now br s1) as Hnt.
-      destruct (drain (Some c) false br now s1) as [[s2 p3] d3]. unfold dr_st, dr_dl in *; cbn [fst snd qof] in *.
+      destruct (drain (Some c) false br now s1) as [[s2 p3] d3]. unfold dr_st, dr_dl in *; cbn [fst snd qlen] in *.
       rewrite app_nil_r. destruct Hp as [Hp|Hp].
-      * pose proof (ext_wake_deferred now d3 s2) as [_ [_ He]]. unfold lc in *. destruct (cq s2); [contradiction|]. cbn [length] in He. lia.
+      * pose proof (ext_wake_deferred now d3 s2) as [_ [_ He]]. unfold lc in *. lia.
       * rewrite <- Hnt in Hex. pose proof (wake_deferred_grows now d3 s2 Hp Hex). lia.
   - (* the LocalSet tick does not fit *)
     pose proof (drain_over c true now (measure s0) bl s0 C2) as Hp.
     pose proof (drain_dl_exist (Some c) true now bl s0) as Hex.
     pose proof (drain_ext_nt (Some c) true now bl s0) as Hnt.
-    destruct (drain (Some c) true bl now s0) as [[s1 p2] dl2]. unfold dr_st, dr_dl in *; cbn [fst snd qof] in *.
+    destruct (drain (Some c) true bl now s0) as [[s1 p2] dl2]. unfold dr_st, dr_dl in *; cbn [fst snd qlen] in *.
     pose proof (drain_rt_ll (Some c) now br s1) as Hl.
     pose proof (drain_dl_exist (Some c) false now br s1) as Hex3.
     pose proof (drain_ext_nt (Some c) false now br s1) as Hnt3.
     destruct (drain (Some c) false br now s1) as [[s2 p3] d3]. unfold dr_st, dr_dl in *; cbn [fst snd] in *.
     destruct Hp as [Hp|Hp].
-    + pose proof (ext_wake_deferred now (d3 ++ dl2) s2) as [_ [He _]]. unfold ll in *. destruct (lq s1); [contradiction|]. cbn [length] in Hl. lia.
+    + pose proof (ext_wake_deferred now (d3 ++ dl2) s2) as [_ [He _]]. unfold ll in *. lia.
     + assert (Hne : d3 ++ dl2 <> []) by (intros H; apply app_eq_nil in H; destruct H as [_ H]; contradiction).
       assert (Hall : Forall (fun i => i < nt s2) (d3 ++ dl2)).
       { apply Forall_app. split; [rewrite Hnt3; exact Hex3|rewrite Hnt3, Hnt; exact Hex]. }
